@@ -131,9 +131,13 @@ class Baton:
         kind = policy[0]
         self._next_switch = None
         self._replay = None
-        if kind == "random":
+        if kind in ("random", "newline"):
             self.p = float(policy[1])
             self._draw_next()
+            # "newline": additionally pre-empt with probability p_new at every iodata line that is
+            # executed for the first time in this run (cold paths: first-use initialisation, memo fills)
+            self.p_new = float(policy[2]) if kind == "newline" else 0.0
+            self.seen = set()
         elif kind == "pct":
             d = int(policy[1])
             self._change_points = sorted(rng.randrange(1, horizon) for _ in range(d))
@@ -154,6 +158,13 @@ class Baton:
 
     # -- called from client threads ---------------------------------------------------------
     def line_point(self, fn, lineno, code):
+        if self.policy[0] == "newline":
+            key = (fn, lineno)
+            if key not in self.seen:
+                self.seen.add(key)
+                cur = self.cur
+                if cur is not None and threading.current_thread() is cur.thread and self.rng.random() < self.p_new:
+                    self._next_switch = self.points + 1  # switch right here
         self._point((fn, lineno))
 
     def seam_point(self, what):
@@ -167,7 +178,7 @@ class Baton:
         self.points += 1
         kind = self.policy[0]
         target = None
-        if kind == "random":
+        if kind in ("random", "newline"):
             if self.points >= self._next_switch:
                 others = [c for c in self.clients if not c.done and c is not cur]
                 self._draw_next()
@@ -217,7 +228,7 @@ class Baton:
             self.finished.set()
             return
         kind = self.policy[0]
-        if kind == "random":
+        if kind in ("random", "newline"):
             nxt = rest[self.rng.randrange(len(rest))]
         elif kind == "pct":
             nxt = max(rest, key=lambda c: (c.prio, -c.idx))
@@ -242,7 +253,7 @@ class Baton:
             c.thread = threading.Thread(target=self._body, args=(c,), name=f"client-{c.idx}", daemon=True)
             c.thread.start()
         kind = self.policy[0]
-        if kind == "random":
+        if kind in ("random", "newline"):
             first = self.clients[self.rng.randrange(len(self.clients))]
         elif kind == "pct":
             first = max(self.clients, key=lambda c: (c.prio, -c.idx))
